@@ -614,3 +614,59 @@ Proof.
     unfold arm in A. destruct A as [[_ [W _]] | [[B _] | [B _]]]; auto.
     unfold MIN_HALF_WIDTH in W. assert (0 < 1 # 100000000) by reflexivity. lra.
 Qed.
+
+(* ------------------------------------------------------------------------------------------ the value stored with a failed
+   observation is never read *)
+Lemma overwrite_failed_length {A} : forall fails (vals junk : list A), length (overwrite_failed fails vals junk) = length vals.
+Proof.
+  induction fails as [|f fs IH]; intros vals junk; [reflexivity|].
+  destruct vals as [|v vs]; [reflexivity|]. cbn [overwrite_failed length]. f_equal. apply IH.
+Qed.
+
+Lemma select_overwrite_failed {A} : forall fails (vals junk : list A),
+  select (map negb fails) (overwrite_failed fails vals junk) = select (map negb fails) vals.
+Proof.
+  induction fails as [|f fs IH]; intros vals junk; [reflexivity|].
+  destruct vals as [|v vs]; [reflexivity|]. cbn [overwrite_failed map select]. destruct f; cbn [negb]; rewrite IH; reflexivity.
+Qed.
+
+Lemma map_overwrite_failed {A B} (g : A -> B) : forall fails (vals junk : list A),
+  map g (overwrite_failed fails vals junk) = overwrite_failed fails (map g vals) (map g junk).
+Proof.
+  induction fails as [|f fs IH]; intros vals junk; [reflexivity|].
+  destruct vals as [|v vs]; [reflexivity|]. cbn [overwrite_failed map]. rewrite IH. f_equal.
+  - destruct f; [|reflexivity]. destruct junk; reflexivity.
+  - destruct junk; reflexivity.
+Qed.
+
+Lemma map2_overwrite_failed {A C} (g : bool -> A -> C) : (forall x y, g true x = g true y) ->
+  forall fails (vals junk : list A), map2 g fails (overwrite_failed fails vals junk) = map2 g fails vals.
+Proof.
+  intros Hg. induction fails as [|f fs IH]; intros vals junk; [reflexivity|].
+  destruct vals as [|v vs]; [reflexivity|]. cbn [overwrite_failed map2]. rewrite IH. f_equal.
+  destruct f; [apply Hg|reflexivity].
+Qed.
+
+(* scale, midpoint, sign, branch, skip flag and the non-failed values: the whole scaling object *)
+Theorem smmi_overwrite_failed vals fails junk o : smmi (overwrite_failed fails vals junk) fails o = smmi vals fails o.
+Proof. unfold smmi. rewrite select_overwrite_failed. reflexivity. Qed.
+
+Theorem mmi_overwrite_failed m vals fails junk objs :
+  mmi m (overwrite_failed fails vals junk) fails objs = mmi m vals fails objs.
+Proof.
+  unfold mmi. f_equal.
+  assert (E : map (fun k => smmi (column k (overwrite_failed fails vals junk)) fails (obj_at objs k)) (seq 0 m) =
+              map (fun k => smmi (column k vals) fails (obj_at objs k)) (seq 0 m)).
+  { apply map_ext. intros k. unfold column. rewrite map_overwrite_failed. apply smmi_overwrite_failed. }
+  rewrite E. reflexivity.
+Qed.
+
+(* the view: scaled values (failed rows hold the lie), lies, variances and thresholds *)
+Theorem preprocess_overwrite_failed ix vals vars fails objs thr junk :
+  preprocess ix (overwrite_failed fails vals junk) vars fails objs thr = preprocess ix vals vars fails objs thr.
+Proof.
+  unfold preprocess. rewrite map_overwrite_failed. rewrite mmi_overwrite_failed.
+  destruct (mmi (length ix) (map (pick 0 ix) vals) fails (Some (pick NoObjective ix objs))) as [infos|]; [|reflexivity].
+  destruct (lie_row infos LieMin) as [lie|]; [|reflexivity].
+  rewrite map2_overwrite_failed; [reflexivity|]. intros x y. reflexivity.
+Qed.
